@@ -10,6 +10,7 @@ import (
 	"os/exec"
 	"runtime/debug"
 	"strings"
+	"sync/atomic"
 	"syscall"
 	"testing"
 	"time"
@@ -339,7 +340,10 @@ func concurrentChild(spec string) {
 		fmt.Println("CHILD-BAD-SPEC", err)
 		os.Exit(3)
 	}
-	type job struct{ l, hh, wantL, wantH [stateWords]uint }
+	// The concurrent phase comes FIRST: it is the very first use of both routines in this process
+	// (lazily initialised tables must be safe too). The results are compared afterwards with calls
+	// made one after the other.
+	type job struct{ l, hh, gotL, gotH, genL, genH [stateWords]uint }
 	jobs := make([]*job, c.Workers)
 	for w := range jobs {
 		j := &job{}
@@ -347,29 +351,57 @@ func concurrentChild(spec string) {
 		for i := range j.l {
 			j.l[i], j.hh[i] = uint(splitmix(&s)), uint(splitmix(&s))
 		}
-		inL, inH := j.l, j.hh
-		curl.VerifTransform(&j.wantL, &j.wantH, &inL, &inH) // alone
 		jobs[w] = j
 	}
-	fmt.Println("CHILD-SEQUENTIAL-DONE")
+	fmt.Println("CHILD-STARTED")
 	errs := make(chan string, c.Workers)
+	var ready int32
 	for w := range jobs {
-		go func(j *job) {
+		go func(j *job, w int) {
+			// spin barrier: all goroutines leave it within nanoseconds of each other
+			atomic.AddInt32(&ready, 1)
+			for atomic.LoadInt32(&ready) < int32(c.Workers) {
+			}
 			for k := 0; k < c.Calls; k++ {
-				var oL, oH [stateWords]uint
+				var oL, oH, pL, pH [stateWords]uint
 				inL, inH := j.l, j.hh
-				curl.VerifTransform(&oL, &oH, &inL, &inH)
-				if oL != j.wantL || oH != j.wantH {
-					errs <- fmt.Sprintf("call %d", k)
+				if w%2 == 0 { // half of the goroutines touch the portable routine first, half the selected one
+					curl.VerifTransformGeneric(&pL, &pH, &inL, &inH)
+					inL, inH = j.l, j.hh
+					curl.VerifTransform(&oL, &oH, &inL, &inH)
+				} else {
+					curl.VerifTransform(&oL, &oH, &inL, &inH)
+					inL, inH = j.l, j.hh
+					curl.VerifTransformGeneric(&pL, &pH, &inL, &inH)
+				}
+				if k == 0 {
+					j.gotL, j.gotH, j.genL, j.genH = oL, oH, pL, pH
+				} else if oL != j.gotL || oH != j.gotH || pL != j.genL || pH != j.genH {
+					errs <- fmt.Sprintf("call %d differs from call 0 of the same goroutine", k)
 					return
 				}
 			}
 			errs <- ""
-		}(jobs[w])
+		}(jobs[w], w)
 	}
 	for range jobs {
 		if e := <-errs; e != "" {
 			fmt.Println("CHILD-MISMATCH " + e)
+			os.Exit(0)
+		}
+	}
+	for w, j := range jobs { // now one after the other
+		var oL, oH, pL, pH [stateWords]uint
+		inL, inH := j.l, j.hh
+		curl.VerifTransform(&oL, &oH, &inL, &inH)
+		inL, inH = j.l, j.hh
+		curl.VerifTransformGeneric(&pL, &pH, &inL, &inH)
+		if oL != j.gotL || oH != j.gotH {
+			fmt.Printf("CHILD-MISMATCH goroutine %d: the build-selected transform gave a different result in the concurrent phase than alone\n", w)
+			os.Exit(0)
+		}
+		if pL != j.genL || pH != j.genH {
+			fmt.Printf("CHILD-MISMATCH goroutine %d: transformGeneric gave a different result in the concurrent phase than alone\n", w)
 			os.Exit(0)
 		}
 	}
@@ -387,22 +419,31 @@ func TestConcurrent(t *testing.T) {
 		Check: func(c concCase) (h.Info, error) {
 			info := h.Info{Class: "concurrent", NT: true}
 			spec, _ := json.Marshal(c)
+			var text string
+			var err error
 			ctx, cancel := context.WithTimeout(context.Background(), 60*time.Second)
 			defer cancel()
-			cmd := exec.CommandContext(ctx, os.Args[0], "-test.run", "^$")
-			cmd.Env = append(os.Environ(), "VERIF_C20_CHILD="+string(spec))
-			out, err := cmd.CombinedOutput()
-			text := string(out)
+			// several fresh processes per case: a first-use race has one chance per process
+			for rep := 0; rep < 6; rep++ {
+				cmd := exec.CommandContext(ctx, os.Args[0], "-test.run", "^$")
+				cmd.Env = append(os.Environ(), "VERIF_C20_CHILD="+string(spec))
+				var out []byte
+				out, err = cmd.CombinedOutput()
+				text = string(out)
+				if !strings.Contains(text, "CHILD-OK") {
+					break
+				}
+			}
 			switch {
 			case strings.Contains(text, "CHILD-OK"):
 				return info, nil
 			case strings.Contains(text, "CHILD-MISMATCH"):
 				return info, fmt.Errorf("transform [%s build] gives a different result when %d goroutines call it concurrently (%s): the routine keeps state outside its four buffers", buildVariant, c.Workers, strings.TrimSpace(text[strings.Index(text, "CHILD-MISMATCH"):]))
-			case ctx.Err() != nil && strings.Contains(text, "CHILD-SEQUENTIAL-DONE"):
-				return info, fmt.Errorf("transform [%s build] did not finish within 60 s when called from %d goroutines concurrently (%d calls each, expected milliseconds; the same calls one after the other completed): the routine is not re-entrant", buildVariant, c.Workers, c.Calls)
+			case ctx.Err() != nil && strings.Contains(text, "CHILD-STARTED"):
+				return info, fmt.Errorf("transform [%s build] did not finish within 60 s when called from %d goroutines concurrently (%d calls each, expected milliseconds): the routine is not re-entrant", buildVariant, c.Workers, c.Calls)
 			}
 			return info, fmt.Errorf("PRECONDITION: child process could not run (infrastructure): %v %.300s", err, text)
 		},
-		Rule: "2..16 goroutines call the build-selected transform concurrently on different pseudo-random states (20..200 calls each) in a child process: every result must equal the result computed alone, and the child must finish within 60 s; all non-trivial; distinct by case",
+		Rule: "2..16 goroutines call the build-selected transform concurrently on different pseudo-random states (20..200 calls each) as the very first use of both routines in a fresh child process: every result must equal the result computed alone afterwards, and the child must finish within 60 s; all non-trivial; distinct by case",
 	})
 }
